@@ -56,4 +56,9 @@ def main():
 
 
 if __name__ == "__main__":
-    sys.exit(main())
+    rc = main()
+    # threads leaked by the code under test (e.g. a listener callback thread
+    # that a defective stop() left behind) must not keep the check alive
+    sys.stdout.flush()
+    sys.stderr.flush()
+    os._exit(rc if isinstance(rc, int) else 0)
